@@ -370,7 +370,7 @@ func genSpec(rng *rand.Rand, i int64) setSpec {
 		}
 		p = boundaryPowers(rng, n, maxI64/3)
 	case "huge-max-random": // total in {MaxInt64, MaxInt64-1, MaxInt64/2+1, ...}
-		tot := []int64{maxI64, maxI64 - 1, maxI64/2 + 1, maxI64/2 + 2, maxI64/4*3}[rng.Intn(5)]
+		tot := []int64{maxI64, maxI64 - 1, maxI64/2 + 1, maxI64/2 + 2, maxI64 / 4 * 3}[rng.Intn(5)]
 		p = splitPositive(rng, tot, n)
 	case "one-and-huge":
 		p = make([]int64, n)
@@ -443,7 +443,9 @@ func genStream(rng *rand.Rand, w *world, profile int) []opT {
 	for k := 0; k < n; k++ {
 		keyOrder[k] = idxOfKey[k]
 	}
-	vote := func(val, block int, flaw string) { ops = append(ops, opT{Kind: "vote", Val: val, Block: block, Flaw: flaw}) }
+	vote := func(val, block int, flaw string) {
+		ops = append(ops, opT{Kind: "vote", Val: val, Block: block, Flaw: flaw})
+	}
 	claim := func(peer string, block int) { ops = append(ops, opT{Kind: "claim", Peer: peer, Block: block}) }
 	noise := func(p int) {
 		for rng.Intn(100) < p {
